@@ -1189,6 +1189,23 @@ pub fn run(scn: &ObjScenario, record: bool) -> RunResult {
                     }
                 }
             }
+            // the same path rewritten with content of the same length must be read afresh
+            if let Some(variant) = same_length_variant(&bytes) {
+                if let (Ok(()), Ok(w)) = (std::fs::write(&path, &variant), catch(|| parse_obj(variant.iter().copied()))) {
+                    let want2 = observe(w, "", &mut RunResult::default());
+                    match catch(|| re_geom::io::load_obj(&path)) {
+                        Err(c) => rr.violate(Violation::new("W", format!("reload-{}", c.class()), format!("load_obj after a same-length rewrite {}", c.detail()))),
+                        Ok(r) => {
+                            let got = observe(r, "load_obj", &mut RunResult::default());
+                            let d = diff(&got, &want2);
+                            rr.oracle("W", d == "equal");
+                            if d != "equal" {
+                                rr.violate(Violation::new("W", format!("reload-{d}"), format!("the file at the same path was rewritten with {} different bytes of the same length; load_obj gave {} but the file now says {}", variant.len(), got.brief(), want2.brief())));
+                            }
+                        }
+                    }
+                }
+            }
             let _ = std::fs::remove_file(&path);
             match catch(|| re_geom::io::load_obj(&path)) {
                 Ok(Err(_)) => rr.oracle("W", true),
